@@ -6,6 +6,7 @@ CONSTANTS
   Bursts = @BURSTS@
   Kinds = @KINDS@
   MaxSteps = @STEPS@
+  Histories = @HISTS@
 INIT Init
 NEXT Next
 INVARIANTS Emit
